@@ -19,6 +19,7 @@ import (
 	"crypto/ed25519"
 	"crypto/elliptic"
 	"crypto/rand"
+	"crypto/rsa"
 	"crypto/tls"
 	"encoding/json"
 	"fmt"
@@ -30,6 +31,7 @@ import (
 	"unicode"
 
 	"github.com/caddyserver/certmagic"
+	"golang.org/x/net/idna"
 
 	"verifharness/pkg/doubles"
 	"verifharness/pkg/emit"
@@ -40,7 +42,10 @@ func init() { register("C03", runC03) }
 type c03Cert struct {
 	ID      string
 	Names   []string
-	Ed      bool // Ed25519 key: not supported by the harness ClientHello
+	Due     bool // within its renewal window but still valid (80 of 90 days gone)
+	Future  bool // not valid yet (NotBefore two hours ahead)
+	Ed      bool // Ed25519 key: not supported by the default harness ClientHello
+	RSA     bool // RSA key: supported only by the "rsa" ClientHello / RSA-only real clients
 	Expired bool
 	tls     tls.Certificate
 	chain   []byte
@@ -60,17 +65,36 @@ var c03Locals = map[string]net.Addr{
 	"127.0.0.1": &net.TCPAddr{IP: net.ParseIP("127.0.0.1"), Port: 443},
 	"10.0.0.1":  &net.TCPAddr{IP: net.ParseIP("10.0.0.1"), Port: 8443},
 	"fe80::1":   &net.TCPAddr{IP: net.ParseIP("fe80::1"), Port: 443, Zone: "eth0"},
+	// the same IPv4 address as a 4-byte net.IP (net.ParseIP yields the 16-byte form)
+	"10.0.0.1/4": &net.TCPAddr{IP: net.IPv4(10, 0, 0, 1).To4(), Port: 443},
+	"::1":        &net.TCPAddr{IP: net.ParseIP("::1"), Port: 443},
 }
 
-func c03Hello(sni, local string) *tls.ClientHelloInfo {
-	return &tls.ClientHelloInfo{ServerName: sni,
-		Conn:              fakeConn{local: c03Locals[local], remote: &net.TCPAddr{IP: net.ParseIP("192.0.2.7"), Port: 5555}},
+// c03Hello: a synthetic ClientHello. kind "" supports ECDSA P-256 only, "ed25519" adds Ed25519,
+// "rsa" supports RSA certificates only (TLS 1.2 and 1.3), "tls12" is the default restricted to TLS 1.2.
+func c03Hello(sni, local, kind string) *tls.ClientHelloInfo {
+	var conn net.Conn // local "none": a ClientHelloInfo without a connection (not made by crypto/tls)
+	if local != "none" {
+		conn = fakeConn{local: c03Locals[local], remote: &net.TCPAddr{IP: net.ParseIP("192.0.2.7"), Port: 5555}}
+	}
+	h := &tls.ClientHelloInfo{ServerName: sni,
+		Conn:              conn,
 		SupportedVersions: []uint16{tls.VersionTLS13, tls.VersionTLS12},
 		SignatureSchemes:  []tls.SignatureScheme{tls.ECDSAWithP256AndSHA256},
 		CipherSuites:      []uint16{tls.TLS_AES_128_GCM_SHA256, tls.TLS_ECDHE_ECDSA_WITH_AES_128_GCM_SHA256},
 		SupportedCurves:   []tls.CurveID{tls.X25519, tls.CurveP256},
 		SupportedPoints:   []uint8{0},
 	}
+	switch kind {
+	case "ed25519":
+		h.SignatureSchemes = append(h.SignatureSchemes, tls.Ed25519)
+	case "rsa":
+		h.SignatureSchemes = []tls.SignatureScheme{tls.PSSWithSHA256, tls.PKCS1WithSHA256}
+		h.CipherSuites = []uint16{tls.TLS_AES_128_GCM_SHA256, tls.TLS_ECDHE_RSA_WITH_AES_128_GCM_SHA256}
+	case "tls12":
+		h.SupportedVersions = []uint16{tls.VersionTLS12}
+	}
+	return h
 }
 
 var c03PoolDef = []c03Cert{
@@ -81,13 +105,29 @@ var c03PoolDef = []c03Cert{
 	{ID: "w2", Names: []string{"*.x"}, Expired: true},
 	{ID: "m1", Names: []string{"b.x", "a.b.x", "*.b.x"}},
 	{ID: "ww", Names: []string{"*.*.x"}},
-	{ID: "i1", Names: []string{"127.0.0.1"}},
+	{ID: "i1", Names: []string{"127.0.0.1", "::1"}},
 	{ID: "i2", Names: []string{"10.0.0.1", "a.x"}},
 	{ID: "i6", Names: []string{"fe80::1", "127.0.0.1"}, Expired: true},
 	{ID: "fb", Names: []string{"fb.y"}},
 	{ID: "fx", Names: []string{"fb.y", "df.y"}, Expired: true},
 	{ID: "df", Names: []string{"df.y"}},
+	{ID: "r1", Names: []string{"a.x", "q.x"}, RSA: true},
+	{ID: "nv", Names: []string{"a.x", "*.b.x"}, Future: true},
 }
+
+// more pool certificates, used by the random blocks only (not part of the enumerated universe):
+// names made of wildcard labels only, an IDN in its A-label form, an upper-case-free 4-label name
+var c03ExtraDef = []c03Cert{
+	{ID: "s1", Names: []string{"*"}},
+	{ID: "s2", Names: []string{"*.*"}},
+	{ID: "s3", Names: []string{"*.*.*", "*.*.*.x"}},
+	{ID: "u1", Names: []string{"xn--bcher-kva.x"}},
+	{ID: "u2", Names: []string{"*.r.x", "q.r.x"}, Expired: true},
+	{ID: "uc", Names: []string{"Up.X", "*.UP.x"}}, // upper case in the leaf: certmagic lower-cases its Names
+}
+
+// server names for the random blocks only (the enumerated universe uses c03Queries)
+var c03ExtraQueries = []string{"up.x", "Q.Up.x ", "UP.X", "x.y.z", "q.r", "r", "bücher.x", "BÜCHER.X", "q.r.x", "a.q.r.x", "*", "*.*"}
 
 // certificates that can sit in storage as managed certificates (almost-full branch)
 var c03StoredDef = []c03Cert{
@@ -95,13 +135,25 @@ var c03StoredDef = []c03Cert{
 	{ID: "Lx", Names: []string{"a.x"}, Expired: true},
 	{ID: "Lw", Names: []string{"*.b.x"}},
 	{ID: "Lz", Names: []string{"zz.x"}, Expired: true},
+	{ID: "Ld", Names: []string{"due.y"}, Due: true},
+	{ID: "Le", Names: []string{"*.q.y"}, Due: true},
 }
-var c03Storages = map[string][]string{"empty": nil, "valid-a": {"La"}, "expired-a": {"Lx"}, "wild-b+expired-zz": {"Lw", "Lz"}}
+var c03Storages = map[string][]string{"empty": nil, "valid-a": {"La"}, "expired-a": {"Lx"}, "wild-b+expired-zz": {"Lw", "Lz"},
+	"broken-qb+wild-b": {"Lw"}, "broken-wild-b+valid-a": {"Lw", "La"}, "due-y": {"Ld", "Le"}}
+
+// names whose resources cannot be read in a storage variant: Load fails with an error that is not fs.ErrNotExist
+var c03Broken = map[string][]string{"broken-qb+wild-b": {"q.b.x"}, "broken-wild-b+valid-a": {"*.b.x"}}
 
 func c03Make(ca *doubles.CA, c *c03Cert) error {
 	o := doubles.LeafOpts{Names: c.Names}
 	if c.Expired {
 		o.NotBefore, o.NotAfter = time.Now().Add(-72*time.Hour), time.Now().Add(-2*time.Hour)
+	}
+	if c.Due {
+		o.NotBefore, o.NotAfter = time.Now().Add(-80*24*time.Hour), time.Now().Add(10*24*time.Hour)
+	}
+	if c.Future {
+		o.NotBefore, o.NotAfter = time.Now().Add(2*time.Hour), time.Now().Add(90*24*time.Hour)
 	}
 	var keyPEM []byte
 	if c.Ed {
@@ -111,6 +163,15 @@ func c03Make(ca *doubles.CA, c *c03Cert) error {
 		}
 		o.Pub = pub
 		if keyPEM, err = certmagic.PEMEncodePrivateKey(priv); err != nil {
+			return err
+		}
+	} else if c.RSA {
+		k, err := rsa.GenerateKey(rand.Reader, 2048)
+		if err != nil {
+			return err
+		}
+		o.Pub = &k.PublicKey
+		if keyPEM, err = certmagic.PEMEncodePrivateKey(k); err != nil {
 			return err
 		}
 	} else {
@@ -147,6 +208,63 @@ type c03In struct {
 	// RealTLS: the ClientHello comes from a real crypto/tls client over TCP loopback against
 	// tls.Server(cfg.TLSConfig()); the served leaf is compared with GetCertificate's answer.
 	RealTLS bool `json:"real_tls,omitempty"`
+	// Client: configuration of the real client ("" default, "tls12-ecdsa", "tls12-rsa", "tls13")
+	Client string `json:"client,omitempty"`
+	// Hello: kind of the synthetic ClientHello (see c03Hello)
+	Hello string `json:"hello,omitempty"`
+	// Policy: Config.CertSelection ("" = nil: DefaultCertificateSelector; "min", "max",
+	// "good-min", "refuse": harness doubles, see c03Selector)
+	Policy string `json:"policy,omitempty"`
+	// Protos: hello.SupportedProtos (ALPN); Abort: the "tls_get_certificate" event handler vetoes
+	Protos []string `json:"protos,omitempty"`
+	Abort  bool     `json:"abort,omitempty"`
+}
+
+// ALPN offers: none (most), ordinary, the TLS-ALPN challenge protocol alone, and mixed with others
+var c03ProtoSets = [][]string{nil, nil, nil, {"h2", "http/1.1"}, {"acme-tls/1"}, {"acme-tls/1", "h2"}, {"h2", "acme-tls/1"}, {"acme-tls/1", "acme-tls/1"}, {"ACME-TLS/1"}}
+
+var c03Policies = map[string]int{"": 0, "min": 1, "max": 2, "good-min": 3, "refuse": 4}
+
+// c03Selector is a Config.CertSelection double. It identifies the choices by their hash (renamed
+// to the pool ids) and decides by a rule that does not depend on their order (getAllCerts
+// iterates a map): the smallest / largest id, the smallest among the choices the ClientHello
+// supports and that are within their validity, or none at all.
+type c03Selector struct {
+	env    *c03Env
+	policy string
+	calls  [][]string // the choices offered, per call
+}
+
+func (sel *c03Selector) SelectCertificate(hello *tls.ClientHelloInfo, choices []certmagic.Certificate) (certmagic.Certificate, error) {
+	var ids []string
+	byID := map[string]certmagic.Certificate{}
+	for _, c := range choices {
+		id := sel.env.al(c.Hash())
+		ids = append(ids, id)
+		byID[id] = c
+	}
+	sort.Strings(ids)
+	sel.calls = append(sel.calls, ids)
+	now := time.Now()
+	var ok []string
+	for _, id := range ids {
+		switch sel.policy {
+		case "min", "max":
+			ok = append(ok, id)
+		case "good-min":
+			c := byID[id]
+			if hello.SupportsCertificate(&c.Certificate) == nil && now.After(c.Leaf.NotBefore) && now.Before(c.Leaf.NotAfter) {
+				ok = append(ok, id)
+			}
+		}
+	}
+	if len(ok) == 0 {
+		return certmagic.Certificate{}, fmt.Errorf("selector double: no acceptable choice among %v", ids)
+	}
+	if sel.policy == "max" {
+		return byID[ok[len(ok)-1]], nil
+	}
+	return byID[ok[0]], nil
 }
 
 type c03Env struct {
@@ -161,14 +279,17 @@ type c03Env struct {
 	curSnap *c12Snap
 	// oracle bookkeeping
 	loadedNotCovering []string
+	namesMismatch     []string
 	nSup, nUnsup      int
+	haveV6            bool
 }
 
 func newC03Env() (*c03Env, error) {
 	env := &c03Env{backend: doubles.NewMemBackend(), pool: map[string]*c03Cert{}, stored: map[string]*c03Cert{}, alias: map[string]string{}}
 	ca := doubles.NewCA("c03 CA")
 	iss := &doubles.IssuerDouble{Key: "dbl", CA: ca, Log: env.backend.Log, Inst: "c03"}
-	cfg, cache := doubles.NewConfig(env.backend.Handle("c03"), certmagic.Config{}, certmagic.CacheOptions{}, iss)
+	// (a synthetic ClientHelloInfo has a nil Context(), which the TLS-ALPN branch hands to Storage.Load)
+	cfg, cache := doubles.NewConfig(doubles.NilCtxStorage{S: env.backend.Handle("c03")}, certmagic.Config{}, certmagic.CacheOptions{}, iss)
 	env.cfg, env.cache = cfg, cache
 	env.getter = func(certmagic.Certificate) (*certmagic.Config, error) { return cfg, nil }
 	for i := range c03PoolDef {
@@ -177,6 +298,19 @@ func newC03Env() (*c03Env, error) {
 			return nil, err
 		}
 		// learn the hash certmagic gives it
+		h, err := cfg.CacheUnmanagedTLSCertificate(context.Background(), c.tls, nil)
+		if err != nil {
+			return nil, err
+		}
+		c.hash = h
+		env.alias[h] = c.ID
+		env.pool[c.ID] = &c
+	}
+	for i := range c03ExtraDef {
+		c := c03ExtraDef[i]
+		if err := c03Make(ca, &c); err != nil {
+			return nil, err
+		}
 		h, err := cfg.CacheUnmanagedTLSCertificate(context.Background(), c.tls, nil)
 		if err != nil {
 			return nil, err
@@ -199,10 +333,23 @@ func newC03Env() (*c03Env, error) {
 		env.stored[c.ID] = &c
 	}
 	cache.VerifReset()
+	if ln, err := net.Listen("tcp", "[::1]:0"); err == nil {
+		ln.Close()
+		env.haveV6 = true
+	}
 	return env, nil
 }
 
 func (env *c03Env) close() { env.cache.Stop() }
+
+// c03StorageKey: where certmagic keeps the resources of a certificate -- written out here, NOT
+// taken from certmagic.StorageKeys (whose own answer is compared once per run, see the oracle
+// "storage key names"): certificates/<issuer>/<name>/<name>.{crt,key,json}, a "*" in the name
+// spelled "wildcard_".
+func c03StorageKey(issuer, name, ext string) string {
+	safe := strings.ReplaceAll(name, "*", "wildcard_")
+	return "certificates/" + issuer + "/" + safe + "/" + safe + ext
+}
 
 func (env *c03Env) setStorage(variant string) {
 	for _, k := range env.backend.Keys() {
@@ -211,12 +358,78 @@ func (env *c03Env) setStorage(variant string) {
 	for _, id := range c03Storages[variant] {
 		c := env.stored[id]
 		n := c.Names[0]
-		env.backend.Put(certmagic.StorageKeys.SiteCert("dbl", n), c.chain)
-		env.backend.Put(certmagic.StorageKeys.SitePrivateKey("dbl", n), c.key)
+		env.backend.Put(c03StorageKey("dbl", n, ".crt"), c.chain)
+		env.backend.Put(c03StorageKey("dbl", n, ".key"), c.key)
 		meta, _ := json.Marshal(certmagic.CertificateResource{SANs: c.Names})
-		env.backend.Put(certmagic.StorageKeys.SiteMeta("dbl", n), meta)
+		env.backend.Put(c03StorageKey("dbl", n, ".json"), meta)
 	}
 	env.backend.Log.Ops = nil
+	env.backend.Log.Hook = nil
+	if br := c03Broken[variant]; len(br) > 0 {
+		bad := map[string]bool{}
+		for _, n := range br {
+			for _, ext := range []string{".crt", ".key", ".json"} {
+				bad[c03StorageKey("dbl", n, ext)] = true
+			}
+		}
+		env.backend.Log.Hook = func(op *doubles.Op) error {
+			if op.Kind == "Load" && bad[op.Key] {
+				return fmt.Errorf("storage double: injected read failure for %s", op.Key)
+			}
+			return nil
+		}
+	}
+}
+
+func c03LeafNames(c *c03Cert) []string {
+	var out []string
+	for _, d := range c.tls.Leaf.DNSNames {
+		out = append(out, strings.ToLower(d))
+	}
+	for _, ip := range c.tls.Leaf.IPAddresses {
+		out = append(out, ip.String())
+	}
+	return out
+}
+
+func sameSet(a, b []string) bool {
+	m := map[string]int{}
+	for _, x := range a {
+		m[x] |= 1
+	}
+	for _, x := range b {
+		m[x] |= 2
+	}
+	for _, v := range m {
+		if v != 3 {
+			return false
+		}
+	}
+	return true
+}
+
+// c03Covers: the reference meaning of "san covers name": equal, or name with its k >= 1 leftmost
+// labels each replaced by "*" (independent of certmagic.MatchWildcard).
+func c03Covers(san, name string) bool {
+	if san == name {
+		return true
+	}
+	labels := strings.Split(name, ".")
+	for i := range labels {
+		labels[i] = "*"
+		if san == strings.Join(labels, ".") {
+			return true
+		}
+	}
+	return false
+}
+
+// c03HelloName: the name a ClientHello asks for, computed here with x/net/idna and the standard
+// library (NOT with certmagic's getNameFromClientHello): IDNA Lookup profile of the trimmed
+// server name; ok=false if that fails.
+func c03IDNA(sni string) (string, bool) {
+	n, err := idna.Lookup.ToASCII(strings.TrimSpace(sni))
+	return n, err == nil
 }
 
 // build (re)fills the cache with the given pool certificates in order, alternating between the
@@ -285,8 +498,12 @@ func (env *c03Env) snap() c12Snap {
 // realHandshake performs a real TLS handshake over TCP loopback against
 // tls.Server(cfg.TLSConfig()) with GetCertificate wrapped by observe; it returns the leaf the
 // client was served (nil if the handshake failed) and the client's handshake error.
-func (env *c03Env) realHandshake(sni string, observe func(*tls.ClientHelloInfo) (*tls.Certificate, error)) ([]byte, error) {
-	ln, err := net.Listen("tcp", "127.0.0.1:0")
+func (env *c03Env) realHandshake(sni, client string, protos []string, observe func(*tls.ClientHelloInfo) (*tls.Certificate, error)) ([]byte, error) {
+	addr := "127.0.0.1:0"
+	if strings.HasSuffix(client, "@v6") && env.haveV6 {
+		addr = "[::1]:0"
+	}
+	ln, err := net.Listen("tcp", addr)
 	if err != nil {
 		return nil, err
 	}
@@ -306,7 +523,18 @@ func (env *c03Env) realHandshake(sni string, observe func(*tls.ClientHelloInfo) 
 	}()
 	var served []byte
 	d := &net.Dialer{Timeout: 5 * time.Second}
-	conn, herr := tls.DialWithDialer(d, "tcp", ln.Addr().String(), &tls.Config{ServerName: sni, InsecureSkipVerify: true})
+	cc := &tls.Config{ServerName: sni, InsecureSkipVerify: true, NextProtos: protos}
+	switch strings.TrimSuffix(client, "@v6") {
+	case "tls12-ecdsa":
+		cc.MaxVersion = tls.VersionTLS12
+		cc.CipherSuites = []uint16{tls.TLS_ECDHE_ECDSA_WITH_AES_128_GCM_SHA256}
+	case "tls12-rsa":
+		cc.MaxVersion = tls.VersionTLS12
+		cc.CipherSuites = []uint16{tls.TLS_ECDHE_RSA_WITH_AES_128_GCM_SHA256}
+	case "tls13":
+		cc.MinVersion = tls.VersionTLS13
+	}
+	conn, herr := tls.DialWithDialer(d, "tcp", ln.Addr().String(), cc)
 	if herr == nil {
 		if pcs := conn.ConnectionState().PeerCertificates; len(pcs) > 0 {
 			served = pcs[0].Raw
@@ -359,24 +587,41 @@ func (env *c03Env) lookupCase(w *emit.Writer, in c03In, class string) error {
 	}
 	env.setStorage(in.Storage)
 	env.cfg.DefaultServerName, env.cfg.FallbackServerName = in.Default, in.Fallback
+	var selector *c03Selector
+	env.cfg.CertSelection = nil
+	if in.Policy != "" {
+		if _, ok := c03Policies[in.Policy]; !ok {
+			return fmt.Errorf("unknown policy %q", in.Policy)
+		}
+		selector = &c03Selector{env: env, policy: in.Policy}
+		env.cfg.CertSelection = selector
+	}
+	defer func() { env.cfg.CertSelection = nil }()
 	before := *env.curSnap
 	// oracle attributes and the call, on the ClientHello the server side sees
 	type at struct{ sup, valid, complete bool }
 	attrs := map[string]at{}
-	var name string
-	var nerr, err, obsErr error
-	var qual, called bool
+	storedSup := map[string]bool{}
+	var err, obsErr error
+	var called, hasConn bool
+	var panicked string
+	var amc []string
+	var protosSeen []string
 	var ip, implIP, sni string
-	var loaded *c03Cert
+	var idnaName string
+	var idnaOK bool
+	var implName string
+	var implNameErr error
 	var cert *tls.Certificate
 	observe := func(hello *tls.ClientHelloInfo) (*tls.Certificate, error) {
 		called = true
 		sni = hello.ServerName
+		protosSeen = append([]string{}, hello.SupportedProtos...)
 		now := time.Now()
 		for _, id := range in.Certs {
 			c := env.pool[id]
 			valid := now.After(c.tls.Leaf.NotBefore.Add(time.Minute)) && now.Before(c.tls.Leaf.NotAfter.Add(-time.Minute))
-			if valid == c.Expired {
+			if valid == (c.Expired || c.Future) {
 				obsErr = fmt.Errorf("pool certificate %s: validity margin violated", id)
 			}
 			attrs[id] = at{hello.SupportsCertificate(&c.tls) == nil, valid, len(c.tls.Certificate) > 0 && c.tls.PrivateKey != nil}
@@ -386,64 +631,108 @@ func (env *c03Env) lookupCase(w *emit.Writer, in c03In, class string) error {
 				env.nUnsup++
 			}
 		}
-		name, nerr = env.cfg.VerifNameFromClientHello(hello)
-		qual = nerr == nil && certmagic.SubjectQualifiesForCert(name)
-		// the connection's local IP as the property means it: the textual IP address of the local
-		// endpoint (IPv4 in dotted form whatever the byte length of the net.IP, no zone, no port),
-		// computed here and NOT taken from the code's own localIPFromConn, whose answer is only recorded
+		for id, c := range env.stored {
+			storedSup[id] = hello.SupportsCertificate(&c.tls) == nil
+		}
+		// the name the ClientHello asks for and the connection's local IP as the property means
+		// them, computed here (x/net/idna, net.TCPAddr) and NOT taken from the code's own
+		// getNameFromClientHello / localIPFromConn, whose answers are only recorded
+		idnaName, idnaOK = c03IDNA(hello.ServerName)
+		implName, implNameErr = env.cfg.VerifNameFromClientHello(hello)
 		implIP = certmagic.VerifLocalIPFromConn(hello.Conn)
-		ip = implIP
-		if ta, ok := hello.Conn.LocalAddr().(*net.TCPAddr); ok && ta != nil && ta.IP != nil {
-			ip = ta.IP.String()
-		}
-		// what loadCertFromStorage would yield for this name (exact key, then first label -> "*")
-		if nerr == nil {
-			byName := map[string]*c03Cert{}
-			for _, id := range c03Storages[in.Storage] {
-				byName[env.stored[id].Names[0]] = env.stored[id]
-			}
-			l := byName[name]
-			if l == nil {
-				labels := strings.Split(name, ".")
-				labels[0] = "*"
-				l = byName[strings.Join(labels, ".")]
-			}
-			if l != nil && !l.Expired { // an expired one cannot be renewed without on-demand: load fails
-				loaded = l
-				covered := false
-				for _, san := range l.Names {
-					covered = covered || certmagic.MatchWildcard(name, san)
-				}
-				if !covered {
-					env.loadedNotCovering = append(env.loadedNotCovering, fmt.Sprintf("%s for %q", l.ID, name))
-				}
+		ip = ""
+		hasConn = hello.Conn != nil
+		if hasConn {
+			ip = implIP
+			if ta, ok := hello.Conn.LocalAddr().(*net.TCPAddr); ok && ta != nil && ta.IP != nil {
+				ip = ta.IP.String()
 			}
 		}
-		// the call
-		cert, err = env.cfg.GetCertificate(hello)
+		// the other public view of the same cache, before the call: AllMatchingCertificates of the
+		// normalised server name
+		amc = []string{}
+		for _, c := range env.cache.AllMatchingCertificates(strings.ToLower(strings.TrimSpace(hello.ServerName))) {
+			amc = append(amc, env.al(c.Hash()))
+		}
+		// the call (a panic is an observation too: neither an error nor a certificate)
+		func() {
+			defer func() {
+				if r := recover(); r != nil {
+					panicked = fmt.Sprint(r)
+					cert, err = nil, nil
+				}
+			}()
+			cert, err = env.cfg.GetCertificate(hello)
+		}()
 		return cert, err
 	}
-	servedDiffers := false
+	var served []byte
+	var herr error
+	env.cfg.OnEvent = nil
+	if in.Abort {
+		env.cfg.OnEvent = func(ctx context.Context, event string, data map[string]any) error {
+			if event == "tls_get_certificate" {
+				return fmt.Errorf("event handler double: handshake vetoed")
+			}
+			return nil
+		}
+	}
+	defer func() { env.cfg.OnEvent = nil }()
 	if !in.RealTLS {
-		observe(c03Hello(in.SNI, in.Local))
+		h := c03Hello(in.SNI, in.Local, in.Hello)
+		h.SupportedProtos = in.Protos
+		observe(h)
 	} else {
-		served, herr := env.realHandshake(in.SNI, observe)
+		served, herr = env.realHandshake(in.SNI, in.Client, in.Protos, observe)
 		if !called {
 			w.Hist("real_tls_no_hello") // the client refused the server name: nothing reached the server
 			return nil
-		}
-		if err == nil && cert != nil && len(cert.Certificate) > 0 {
-			servedDiffers = herr != nil || served == nil || string(served) != string(cert.Certificate[0])
-		} else if herr == nil {
-			servedDiffers = true // handshake succeeded although GetCertificate gave nothing
 		}
 	}
 	if obsErr != nil {
 		return obsErr
 	}
+	// a stored certificate that is due but still valid is served and then removed from the cache by
+	// the background renewal goroutine (renewing is not allowed without on-demand TLS): wait for that
+	// (and for the goroutine to deregister itself) before looking at the cache
+	if err == nil && cert != nil && len(cert.Certificate) > 0 {
+		for _, c := range env.stored {
+			if c.Due && string(c.tls.Certificate[0]) == string(cert.Certificate[0]) {
+				gone := false
+				for i := 0; i < 2000 && !gone; i++ {
+					gone = !keySet(env.snap())[c.ID]
+					if gone {
+						_, obtaining := certmagic.VerifWaitChans()
+						gone = len(obtaining) == 0
+					}
+					if !gone {
+						time.Sleep(5 * time.Millisecond)
+					}
+				}
+				if !gone {
+					w.Hist("skipped_boundary_background_removal_not_seen")
+					env.curKey = ""
+					return nil
+				}
+				w.Hist("due_certificate_served_then_removed")
+			}
+		}
+	}
+	after := env.snap()
+	// the eviction victim: a key cached before and not afterwards
+	victim := ""
+	{
+		a := keySet(after)
+		for _, k := range before.Keys {
+			if !a[k] {
+				victim = k
+				break
+			}
+		}
+	}
 	e := &emit.Enc{}
 	e.Int(0)
-	encTables(e, sni, in.Default, in.Fallback)
+	encTables(e, sni, in.Default, in.Fallback, idnaName)
 	e.Int(in.Cap)
 	encSnap(e, before)
 	ids := append([]string{}, in.Certs...)
@@ -451,23 +740,55 @@ func (env *c03Env) lookupCase(w *emit.Writer, in c03In, class string) error {
 	e.Len(len(ids))
 	for _, id := range ids {
 		a := attrs[id]
-		e.Str(id).Bool(a.sup).Bool(a.valid).Bool(a.complete)
+		// the subject names the leaf really carries (DNS names, IP addresses), read from the x509
+		// leaf the harness issued -- not the Names certmagic derived
+		real := c03LeafNames(env.pool[id])
+		e.Str(id).Bool(a.sup).Bool(a.valid).Bool(a.complete).StrList(real)
+		for i, k := range before.Keys {
+			if k == id && !sameSet(before.Certs[i].Names, real) {
+				env.namesMismatch = append(env.namesMismatch, fmt.Sprintf("%s: certmagic %v, leaf %v", id, before.Certs[i].Names, real))
+			}
+		}
 	}
-	e.Str(in.Default).Str(in.Fallback).Str(sni).Str(ip)
-	e.Bool(nerr != nil).Bool(qual)
-	if loaded != nil {
-		e.Bool(true)
-		encCert(e, c12Info{Hash: loaded.ID, Names: loaded.Names, Managed: true, IssuerKey: "dbl"})
-		e.Bool(len(loaded.tls.Certificate) > 0 && loaded.tls.PrivateKey != nil)
+	e.Str(in.Default).Str(in.Fallback).Str(sni).Str(ip).Bool(hasConn)
+	e.Bool(in.Abort).StrList(protosSeen)
+	e.Int(c03Policies[in.Policy])
+	if idnaOK {
+		e.Bool(true).Str(idnaName)
 	} else {
-		e.Bool(false).Bool(false)
+		e.Bool(false)
 	}
+	// what storage holds: the name each certificate resource is stored under, the certificate as
+	// CacheManagedCertificate caches it, whether it is fresh (an expired one cannot be renewed
+	// without on-demand TLS: its maintenance fails and it is removed again), and complete
+	st := c03Storages[in.Storage]
+	e.Len(len(st))
+	for _, id := range st {
+		c := env.stored[id]
+		e.Str(c.Names[0])
+		encCert(e, c12Info{Hash: c.ID, Names: c.Names, Managed: true, IssuerKey: "dbl"})
+		e.Bool(!c.Expired && !c.Due).Bool(!c.Expired).Bool(len(c.tls.Certificate) > 0 && c.tls.PrivateKey != nil)
+		covered := false
+		for _, san := range c.Names {
+			covered = covered || san == c.Names[0]
+		}
+		if !covered {
+			env.loadedNotCovering = append(env.loadedNotCovering, c.ID)
+		}
+	}
+	e.StrList(c03Broken[in.Storage])
+	encVictim(e, victim)
 	obs := map[string]any{}
 	res := "error"
+	answered := ""
 	switch {
 	case err != nil:
 		e.Int(0)
 		obs["error"] = err.Error()
+	case panicked != "":
+		e.Int(2)
+		res = "PANIC"
+		obs["panic"] = panicked
 	case cert == nil || len(cert.Certificate) == 0:
 		e.Int(2)
 		res = "EMPTY-CERT-NIL-ERROR"
@@ -481,25 +802,69 @@ func (env *c03Env) lookupCase(w *emit.Writer, in c03In, class string) error {
 				}
 			}
 		}
+		answered = id
 		complete := len(cert.Certificate) > 0 && cert.PrivateKey != nil
-		if servedDiffers {
-			id = "?served-differs-from-answer"
+		if in.RealTLS {
+			// what the client was served must be the answer; the handshake may fail only if the
+			// ClientHello does not support the answer
+			sup, known := storedSup[id]
+			if a, ok := attrs[id]; ok {
+				sup, known = a.sup, true
+			}
+			switch {
+			case herr == nil && (served == nil || string(served) != string(cert.Certificate[0])):
+				id = "?served-differs-from-answer"
+			case herr != nil && known && sup:
+				id = "?handshake-failed-although-answer-supported"
+				obs["handshake_error"] = herr.Error()
+			case herr != nil:
+				w.Hist("real_tls_answer_unsupported_handshake_failed")
+			}
 		}
 		e.Int(1).Str(id).Bool(complete)
 		res = "cert"
 		obs["cert"], obs["complete"] = id, complete
 	}
-	obs["name_err"], obs["qualifies"], obs["local_ip"] = nerr != nil, qual, ip
+	if !hasConn {
+		w.Hist("hello_without_conn")
+	}
+	if in.Abort {
+		w.Hist("event_handler_veto")
+	}
+	if len(protosSeen) > 0 {
+		w.Hist("alpn=" + strings.Join(protosSeen, ","))
+	}
+	if in.RealTLS && (err != nil || cert == nil || len(cert.Certificate) == 0) && herr == nil {
+		// the handshake succeeded although GetCertificate gave nothing
+		return fmt.Errorf("real TLS handshake for %q succeeded although GetCertificate answered %v", in.SNI, err)
+	}
+	encSnap(e, after)
+	e.StrList(amc)
+	obs["all_matching_certificates"] = amc
+	obs["local_ip"] = ip
 	if implIP != ip {
 		obs["local_ip_as_code_sees_it"] = implIP
 	}
-	if loaded != nil {
-		obs["loadable"] = loaded.ID
+	if idnaOK {
+		obs["idna_name"] = idnaName
+	} else {
+		obs["idna_name"] = nil
+	}
+	obs["name_as_code_sees_it"] = implName
+	if implNameErr != nil {
+		obs["name_error_as_code_sees_it"] = implNameErr.Error()
+	}
+	if selector != nil {
+		obs["selector_calls"] = selector.calls
+	}
+	if !snapEqual(after, before) {
+		obs["cache_after"] = after
 	}
 	sniClass := "plain"
-	norm := certmagic.VerifNormalizedName(sni)
+	norm := strings.ToLower(strings.TrimSpace(sni))
 	if in.RealTLS {
 		w.Hist("real_tls_handshake")
+		w.Hist("real_tls_client=" + in.Client)
 		obs["sni_seen_by_server"] = sni
 	}
 	switch {
@@ -507,9 +872,9 @@ func (env *c03Env) lookupCase(w *emit.Writer, in c03In, class string) error {
 		sniClass = "empty"
 	case norm != sni:
 		sniClass = "needs-normalizing"
-	case nerr != nil:
+	case !idnaOK:
 		sniClass = "idna-error"
-	case name != norm:
+	case idnaName != norm:
 		sniClass = "idn"
 	}
 	capKind := "unlimited"
@@ -522,23 +887,104 @@ func (env *c03Env) lookupCase(w *emit.Writer, in c03In, class string) error {
 			}
 		}
 	}
-	desc := map[string]any{"class": class, "kind": "lookup", "size": len(in.Certs), "cap": capKind, "result": res, "sni": sniClass, "storage": in.Storage}
+	how := "none"
+	switch {
+	case answered == "":
+	case env.stored[answered] != nil:
+		how = "loaded-from-storage"
+	default:
+		covers := false
+		for _, san := range c03LeafNames(env.pool[answered]) {
+			covers = covers || (norm != "" && c03Covers(san, norm)) || (norm == "" && san == ip)
+		}
+		how = "covering"
+		if !covers {
+			how = "non-covering(default/fallback/custom)"
+		}
+	}
+	pol := in.Policy
+	if pol == "" {
+		pol = "default"
+	}
+	desc := map[string]any{"class": class, "kind": "lookup", "size": len(in.Certs), "cap": capKind, "result": res, "sni": sniClass, "storage": in.Storage, "policy": pol}
 	b, _ := json.Marshal(in)
 	w.Add(emit.Case{Desc: desc, In: in, Obs: obs, Wire: e.String(), Nontrivial: len(in.Certs) > 0, Key: string(b)})
 	w.Hist("kind=lookup")
 	w.Hist("result=" + res)
+	w.Hist("answer=" + how)
 	w.Hist("sni=" + sniClass)
 	w.Hist("cap=" + capKind)
 	w.Hist(fmt.Sprintf("size=%d", len(in.Certs)))
 	w.Hist("storage=" + in.Storage)
 	w.Hist(fmt.Sprintf("default=%v,fallback=%v", in.Default != "", in.Fallback != ""))
 	w.Hist("class=" + class)
+	w.Hist("policy=" + pol)
+	if in.Hello != "" {
+		w.Hist("hello=" + in.Hello)
+	}
+	if victim != "" {
+		w.Hist("lookup_evicted_a_certificate")
+	}
 	// the almost-full branch may have changed the cache: rebuild lazily
-	if after := env.snap(); !snapEqual(after, before) {
+	if !snapEqual(after, before) {
 		env.curKey = ""
 		w.Hist("cache_changed_by_lookup")
 	}
 	return nil
+}
+
+// qualCase: one SubjectQualifiesForCert call.
+func qualCase(w *emit.Writer, s string) {
+	o := certmagic.SubjectQualifiesForCert(s)
+	e := (&emit.Enc{}).Int(3)
+	var st []rune
+	seen := map[rune]bool{}
+	for _, r := range s {
+		if r >= 128 && !seen[r] && unicode.IsSpace(r) {
+			seen[r] = true
+			st = append(st, r)
+		}
+	}
+	e.Len(len(st))
+	for _, r := range st {
+		e.Z(int64(r))
+	}
+	e.Str(s).Bool(o)
+	w.Add(emit.Case{Desc: map[string]any{"kind": "SubjectQualifiesForCert", "class": "qual"}, In: s, Obs: o, Wire: e.String(), Nontrivial: true, Key: "qual:" + s})
+	w.Hist("kind=SubjectQualifiesForCert")
+	w.Hist(fmt.Sprintf("qualifies=%v", o))
+}
+
+// nameCase: one getNameFromClientHello call (server name, DefaultServerName, local address).
+func (env *c03Env) nameCase(w *emit.Writer, sni, dflt, local string) {
+	env.cfg.DefaultServerName = dflt
+	hello := c03Hello(sni, local, "")
+	o, oerr := env.cfg.VerifNameFromClientHello(hello)
+	ip := ""
+	if hello.Conn != nil {
+		if ta, ok := hello.Conn.LocalAddr().(*net.TCPAddr); ok && ta != nil && ta.IP != nil {
+			ip = ta.IP.String()
+		}
+	}
+	n, ok := c03IDNA(sni)
+	e := (&emit.Enc{}).Int(4)
+	encTables(e, dflt)
+	e.Str(dflt).Str(ip)
+	if ok {
+		e.Bool(true).Str(n)
+	} else {
+		e.Bool(false)
+	}
+	obs := map[string]any{"name": o}
+	if oerr == nil {
+		e.Bool(true).Str(o)
+	} else {
+		e.Bool(false)
+		obs["error"] = oerr.Error()
+	}
+	w.Add(emit.Case{Desc: map[string]any{"kind": "getNameFromClientHello", "class": "name"}, In: []string{sni, dflt, local}, Obs: obs, Wire: e.String(),
+		Nontrivial: true, Key: "name:" + sni + "|" + dflt + "|" + local})
+	w.Hist("kind=getNameFromClientHello")
 }
 
 func matchCase(w *emit.Writer, subject, wildcard string) {
@@ -623,6 +1069,18 @@ func runC03(tier string, seed int64, outdir string, replay string) error {
 				return err
 			}
 			normCase(w, s)
+		case "SubjectQualifiesForCert":
+			var s string
+			if err := json.Unmarshal(rc.In, &s); err != nil {
+				return err
+			}
+			qualCase(w, s)
+		case "getNameFromClientHello":
+			var a []string
+			if err := json.Unmarshal(rc.In, &a); err != nil {
+				return err
+			}
+			env.nameCase(w, a[0], a[1], a[2])
 		default:
 			var in c03In
 			if err := json.Unmarshal(rc.In, &in); err != nil {
@@ -656,7 +1114,13 @@ func runC03(tier string, seed int64, outdir string, replay string) error {
 		{"almost-full-loaded-maintenance-fails", c03In{Certs: []string{"fb"}, Cap: 1, Fallback: "fb.y", SNI: "a.x", Local: "127.0.0.1", Storage: "expired-a"}},
 		{"almost-full-loaded-maintenance-fails", c03In{Certs: []string{"fb"}, Cap: 1, SNI: "a.x", Local: "127.0.0.1", Storage: "expired-a"}},
 		{"almost-full-loaded-maintenance-fails", c03In{Certs: []string{"w1", "fb", "df"}, Cap: 3, Fallback: "fb.y", SNI: "zz.x", Local: "127.0.0.1", Storage: "wild-b+expired-zz"}},
+		{"nil-conn-no-certificate", c03In{Certs: []string{"e1"}, Cap: 0, SNI: "nomatch.x", Local: "none", Storage: "empty"}},
+		{"nil-conn-no-certificate", c03In{Certs: nil, Cap: 0, SNI: "", Local: "none", Storage: "empty"}},
+		{"nil-conn-no-certificate", c03In{Certs: []string{"i1", "fb"}, Cap: 0, Default: "df.y", Fallback: "fb.y", SNI: "", Local: "none", Storage: "empty"}},
+		{"nil-conn-no-certificate", c03In{Certs: []string{"fb"}, Cap: 1, Fallback: "fb.y", SNI: "a!.x", Local: "none", Storage: "valid-a"}},
 		{"corpus", c03In{Certs: []string{"fb"}, Cap: 1, Fallback: "fb.y", SNI: "a.x", Local: "127.0.0.1", Storage: "valid-a"}},
+		{"corpus", c03In{Certs: []string{"fb"}, Cap: 1, Fallback: "fb.y", SNI: "due.y", Local: "127.0.0.1", Storage: "due-y"}},
+		{"corpus", c03In{Certs: []string{"fb", "e1"}, Cap: 2, SNI: "Z.q.y", Local: "127.0.0.1", Storage: "due-y"}},
 		{"corpus", c03In{Certs: []string{"e2", "e3", "e1"}, Cap: 0, SNI: "A.x ", Local: "127.0.0.1", Storage: "empty"}},
 		{"corpus", c03In{Certs: []string{"w1", "ww", "m1"}, Cap: 0, SNI: "q.b.x", Local: "127.0.0.1", Storage: "empty"}},
 		{"corpus", c03In{Certs: []string{"i1", "df", "fb"}, Cap: 0, Default: "df.y", Fallback: "fb.y", SNI: "", Local: "127.0.0.1", Storage: "empty"}},
@@ -664,6 +1128,25 @@ func runC03(tier string, seed int64, outdir string, replay string) error {
 	for _, c := range corpus {
 		if err := env.lookupCase(w, c.in, c.class); err != nil {
 			return err
+		}
+	}
+	// the almost-full boundary (size against 0.9 x capacity) and the storage fault points: caches of
+	// 8..11 certificates none of which covers "q.b.x", capacities size..size+3
+	{
+		nonCovering := []string{"e1", "e2", "e3", "w1", "w2", "i1", "i2", "i6", "fb", "fx", "df"}
+		for size := 8; size <= 11; size++ {
+			for capacity := size; capacity <= size+3; capacity++ {
+				for _, stv := range []string{"wild-b+expired-zz", "broken-qb+wild-b", "broken-wild-b+valid-a"} {
+					for _, q := range []string{"q.b.x", " Q.B.X ", "a.b.x", "zz.x"} {
+						for _, fbk := range []string{"fb.y", ""} {
+							in := c03In{Certs: nonCovering[:size], Cap: capacity, Fallback: fbk, SNI: q, Local: "127.0.0.1", Storage: stv}
+							if err := env.lookupCase(w, in, "almost-full-boundary"); err != nil {
+								return err
+							}
+						}
+					}
+				}
+			}
 		}
 	}
 	// ---- MatchWildcard and normalizedName ----
@@ -691,6 +1174,35 @@ func runC03(tier string, seed int64, outdir string, replay string) error {
 	for _, q := range append(append([]string{}, c03Queries...), " \t\n\v\f\r A.B \u0085", " Ǆ.x ", "ẞ.X", "K.x", "Σς.x", "  ", "a b", "​A​") {
 		normCase(w, q)
 	}
+	// ---- SubjectQualifiesForCert and getNameFromClientHello on their own ----
+	qualInputs := append([]string{}, c03Queries...)
+	for _, ch := range "()[]{}<> \t\n\"\\!@#$%^&|;'+=*.-_:/?~`,\r\u00a0\u2003" {
+		qualInputs = append(qualInputs, string(ch), "a"+string(ch)+"b.x", string(ch)+".x", "a.x"+string(ch))
+	}
+	qualInputs = append(qualInputs, "*", "*.", "*.x", "**.x", "a.*.x", "*a.x", "a*.x", "*.*.x", ".", "..", " ", "\u00a0", "\u2003\u00a0", "\u00a0a.x", "xn--bcher-kva.x", "bücher.x", "127.0.0.1", "fe80::1", "[::1]", "a.x.", ".a.x", "-a.x", "a.x-")
+	for _, q := range qualInputs {
+		qualCase(w, q)
+	}
+	for _, q := range append(append([]string{}, c03Queries...), "\u00a0a.x\u2003", " BÜCHER.x ", "faß.x", "Σς.x", "a\u200db.x", "xn--a.x", "a..x ", "\t", "-a.x", "a-.x", "ab--c.x") {
+		for _, d := range []string{"", "df.y", " DF.Y ", "Ünï.y "} {
+			for _, l := range []string{"127.0.0.1", "fe80::1", "10.0.0.1/4", "none"} {
+				if strings.TrimSpace(q) != "" && l != "127.0.0.1" {
+					continue
+				}
+				env.nameCase(w, q, d, l)
+			}
+		}
+	}
+	// oracle hypothesis: certmagic stores the resources of a certificate where the harness puts them
+	skOK, skDet := true, ""
+	for _, n := range []string{"a.x", "*.b.x", "zz.x"} {
+		for ext, f := range map[string]func(string, string) string{".crt": certmagic.StorageKeys.SiteCert, ".key": certmagic.StorageKeys.SitePrivateKey, ".json": certmagic.StorageKeys.SiteMeta} {
+			if got, want := f("dbl", n), c03StorageKey("dbl", n, ext); got != want {
+				skOK, skDet = false, fmt.Sprintf("%s: code %q, harness %q", n, got, want)
+			}
+		}
+	}
+	w.Meta.Oracles = append(w.Meta.Oracles, emit.OracleCheck{Name: "storage key names: certificates/<issuer>/<name>/<name>.{crt,key,json} with * spelled wildcard_ (written out by the harness) are the keys certmagic uses", OK: skOK, Detail: skDet})
 	// ---- the lookup universe ----
 	r := mrand.New(mrand.NewSource(seed))
 	subsets := c03Subsets(len(c03PoolDef), 3)
@@ -700,12 +1212,12 @@ func runC03(tier string, seed int64, outdir string, replay string) error {
 	perCap := 0
 	for _, q := range c03Queries {
 		n := 1
-		if certmagic.VerifNormalizedName(q) == "" {
+		if strings.TrimSpace(q) == "" {
 			n = len(c03Locals)
 		}
 		perCap += n * len(c03Configs)
 	}
-	perFullExtra := 4 * 3 * len(c03Configs) // storage-variant queries at full capacity
+	perFullExtra := 10 * 4 * len(c03Configs) // storage-variant queries at full capacity
 	universeSize := 0
 	for _, sub := range subsets {
 		orders := 1
@@ -724,7 +1236,7 @@ func runC03(tier string, seed int64, outdir string, replay string) error {
 	}
 	take := func() bool { return p >= 1 || r.Float64() < p }
 	locals := []string{"127.0.0.1", "10.0.0.1", "fe80::1"}
-	storageQueries := []string{"a.x", "q.b.x", "zz.x", " A.X"}
+	storageQueries := []string{"a.x", "q.b.x", "zz.x", " A.X", "*.b.x", "b.x", "x.q.b.x", "due.y", " DUE.Y", "z.q.y"}
 	for _, sub := range subsets {
 		ids := make([]string, len(sub))
 		for i, j := range sub {
@@ -747,7 +1259,7 @@ func runC03(tier string, seed int64, outdir string, replay string) error {
 				for _, cf := range c03Configs {
 					for _, q := range c03Queries {
 						ls := locals[:1]
-						if certmagic.VerifNormalizedName(q) == "" {
+						if strings.TrimSpace(q) == "" {
 							ls = locals
 						}
 						for _, l := range ls {
@@ -761,7 +1273,7 @@ func runC03(tier string, seed int64, outdir string, replay string) error {
 						}
 					}
 					if capacity > 0 {
-						for _, stv := range []string{"valid-a", "expired-a", "wild-b+expired-zz"} {
+						for _, stv := range []string{"valid-a", "expired-a", "wild-b+expired-zz", "due-y"} {
 							for _, q := range storageQueries {
 								if !take() {
 									continue
@@ -788,7 +1300,8 @@ func runC03(tier string, seed int64, outdir string, replay string) error {
 	if tier == "thorough" {
 		nReal = 1500
 	}
-	realNames := []string{"", "a.x", "A.X", "b.x", "a.b.x", "q.b.x", "q.x", "q.r.x", "zz.x", "fb.y", "x", "xn--bcher-kva.x", "a.x."}
+	realNames := []string{"", "a.x", "A.X", "b.x", "a.b.x", "q.b.x", "q.x", "q.r.x", "zz.x", "fb.y", "x", "xn--bcher-kva.x", "a.x.", "BÜCHER.x", "a_b.x", "Q.X"}
+	clients := []string{"", "", "tls12-ecdsa", "tls12-rsa", "tls13", "@v6", "tls12-rsa@v6"}
 	for i := 0; i < nReal; i++ {
 		perm := r.Perm(len(c03PoolDef))
 		n := 1 + r.Intn(4)
@@ -797,8 +1310,46 @@ func runC03(tier string, seed int64, outdir string, replay string) error {
 			ids[k] = c03PoolDef[perm[k]].ID
 		}
 		cf := c03Configs[r.Intn(len(c03Configs))]
-		in := c03In{Certs: ids, Cap: []int{0, n}[r.Intn(2)], Default: cf[0], Fallback: cf[1], SNI: realNames[r.Intn(len(realNames))], Local: "127.0.0.1", Storage: "empty", RealTLS: true}
+		in := c03In{Certs: ids, Cap: []int{0, n}[r.Intn(2)], Default: cf[0], Fallback: cf[1], SNI: realNames[r.Intn(len(realNames))], Local: "127.0.0.1", Storage: "empty", RealTLS: true,
+			Client: clients[r.Intn(len(clients))], Protos: c03ProtoSets[r.Intn(len(c03ProtoSets))]}
+		if in.Cap > 0 && r.Intn(2) == 0 {
+			in.Storage = []string{"valid-a", "expired-a", "wild-b+expired-zz"}[r.Intn(3)]
+		}
+		if r.Intn(6) == 0 {
+			in.Policy = []string{"min", "max", "good-min", "refuse"}[r.Intn(4)]
+		}
 		if err := env.lookupCase(w, in, "real-tls"); err != nil {
+			return err
+		}
+	}
+	// ---- custom selection policies (Config.CertSelection doubles), other ClientHellos ----
+	nCustom := 2500
+	if tier == "thorough" {
+		nCustom = 25000
+	}
+	allLocals := []string{"127.0.0.1", "10.0.0.1", "fe80::1", "10.0.0.1/4", "::1", "none"}
+	fullPool := append(append([]c03Cert{}, c03PoolDef...), c03ExtraDef...)
+	for i := 0; i < nCustom; i++ {
+		perm := r.Perm(len(fullPool))
+		n := r.Intn(5)
+		ids := make([]string, n)
+		for k := 0; k < n; k++ {
+			ids[k] = fullPool[perm[k]].ID
+		}
+		cf := c03Configs[r.Intn(len(c03Configs))]
+		allQueries := append(append([]string{}, c03Queries...), c03ExtraQueries...)
+		in := c03In{Certs: ids, Cap: []int{0, 0, n, n + 1}[r.Intn(4)], Default: cf[0], Fallback: cf[1], SNI: allQueries[r.Intn(len(allQueries))],
+			Local: allLocals[r.Intn(len(allLocals))], Storage: "empty",
+			Policy: []string{"", "min", "max", "good-min", "good-min", "refuse"}[r.Intn(6)],
+			Hello:  []string{"", "", "ed25519", "rsa", "tls12"}[r.Intn(5)],
+			Protos: c03ProtoSets[r.Intn(len(c03ProtoSets))], Abort: r.Intn(12) == 0}
+		if in.Cap > 0 && r.Intn(2) == 0 {
+			in.Storage = []string{"valid-a", "expired-a", "wild-b+expired-zz", "broken-qb+wild-b", "broken-wild-b+valid-a", "due-y"}[r.Intn(6)]
+			if r.Intn(2) == 0 {
+				in.SNI = storageQueries[r.Intn(len(storageQueries))]
+			}
+		}
+		if err := env.lookupCase(w, in, "custom-selection"); err != nil {
 			return err
 		}
 	}
@@ -808,21 +1359,25 @@ func runC03(tier string, seed int64, outdir string, replay string) error {
 		nBig = 6000
 	}
 	for i := 0; i < nBig; i++ {
-		perm := r.Perm(len(c03PoolDef))
-		n := 4 + r.Intn(len(c03PoolDef)-3)
+		perm := r.Perm(len(fullPool))
+		n := 4 + r.Intn(len(fullPool)-3)
 		ids := make([]string, n)
 		for k := 0; k < n; k++ {
-			ids[k] = c03PoolDef[perm[k]].ID
+			ids[k] = fullPool[perm[k]].ID
 		}
 		capacity := []int{0, n, n + 1, n + 2, n + 5}[r.Intn(5)]
 		cf := c03Configs[r.Intn(len(c03Configs))]
-		stv := []string{"empty", "empty", "valid-a", "expired-a", "wild-b+expired-zz"}[r.Intn(5)]
+		stv := []string{"empty", "empty", "valid-a", "expired-a", "wild-b+expired-zz", "broken-qb+wild-b", "broken-wild-b+valid-a", "due-y"}[r.Intn(8)]
 		for k := 0; k < 6; k++ {
 			q := c03Queries[r.Intn(len(c03Queries))]
+			if k == 3 {
+				q = c03ExtraQueries[r.Intn(len(c03ExtraQueries))]
+			}
 			if k >= 4 {
 				q = storageQueries[r.Intn(len(storageQueries))]
 			}
-			if err := env.lookupCase(w, c03In{Certs: ids, Cap: capacity, Default: cf[0], Fallback: cf[1], SNI: q, Local: locals[r.Intn(3)], Storage: stv}, "random-large"); err != nil {
+			if err := env.lookupCase(w, c03In{Certs: ids, Cap: capacity, Default: cf[0], Fallback: cf[1], SNI: q, Local: allLocals[r.Intn(len(allLocals))], Storage: stv,
+				Hello: []string{"", "", "", "ed25519", "rsa"}[r.Intn(5)], Protos: c03ProtoSets[r.Intn(len(c03ProtoSets))], Abort: r.Intn(15) == 0}, "random-large"); err != nil {
 				return err
 			}
 		}
@@ -832,7 +1387,8 @@ func runC03(tier string, seed int64, outdir string, replay string) error {
 		det = det[:300]
 	}
 	w.Meta.Oracles = append(w.Meta.Oracles,
-		emit.OracleCheck{Name: "what loadCertFromStorage can yield lists a name covering the requested name (storage holds certificates under their own names: C06)", OK: len(env.loadedNotCovering) == 0, Detail: det},
+		emit.OracleCheck{Name: "every certificate resource in the storage double is stored under one of the certificate's own names (C06)", OK: len(env.loadedNotCovering) == 0, Detail: det},
+		emit.OracleCheck{Name: "the Names of every cached certificate are the DNS names and IP addresses its leaf carries", OK: len(env.namesMismatch) == 0, Detail: strings.Join(env.namesMismatch[:min(len(env.namesMismatch), 3)], "; ")},
 		emit.OracleCheck{Name: "hello.SupportsCertificate was observed both true and false over the pool", OK: env.nSup > 0 && env.nUnsup > 0, Detail: fmt.Sprintf("supported=%d unsupported=%d", env.nSup, env.nUnsup)})
 	return nil
 }
